@@ -35,7 +35,7 @@ CHECKS = {
     ref="7/C03, 12.1"),
  "C05": dict(
   technique="Coq proof (invariant + frame/refinement relation by induction over all edit histories) on a hand model, tied to /repo by differential correspondence evaluated by the kernel (tie H) + Python oracle",
-  text="Props/C05.v: Inv (one row and one numeric charge per atom, no duplicates, parents, bond endpoints in the molecule) holds for empty/loaded/cloned states (C05_inv_init_*), is preserved by every operation whether it returns or raises (C05_inv_step) hence by every history (C05_inv_history); every surviving atom keeps its coordinate row and charge (C05_keeps_step/_history, C05_new_atom_row, C05_idx_correct); del_atom removes exactly the atom and its incident bonds (C05_del_exact); failed atomic operations and remove_substituent change nothing (C05_err_unchanged_*partial). Every run drives random (len<=40) and bounded-exhaustive histories through the real Molecule/Structure API, observes all accessors keyed by object identity after every step and has Coq replay them in the model (check_case, vm_compute; C05_check_case_sound).",
+  text="Props/C05.v: Inv (one row and one numeric charge per atom, no duplicates, parents, bond endpoints in the molecule) holds for empty/loaded/cloned states (C05_inv_init_*), is preserved by every operation whether it returns or raises (C05_inv_step) hence by every history (C05_inv_history); every surviving atom keeps its coordinate row and charge (C05_keeps_step/_history, C05_new_atom_row, C05_idx_correct); del_atom removes exactly the atom and its incident bonds (C05_del_exact); failed atomic operations and remove_substituent(a1<>a2, any designators) change nothing (C05_err_unchanged_*partial). Every run drives random (len<=40) and bounded-exhaustive histories through the real Molecule/Structure API, observes all accessors keyed by object identity after every step and has Coq replay them in the model (check_case, vm_compute; C05_check_case_sound).",
   note="Trusted: Coq kernel + vm_compute; harness/c05.py (driver, id()->name renaming, token maps, literal emission); CPython/numpy. Modelled not verified: np.append/np.delete as list append/delete-nth; add_implicit_hydrogens only structurally (count/geometry: C16); BFS fuel sufficiency not proved (OutOfFuel excluded, would fail a shard). Partial: err_unchanged is false in the code for remove_substituent(a,a) on a self-loop and multi-target add_implicit_hydrogens. Views: edits are not defined on Conformer/Substructure (oracle scenarios only). Known finding: foreign atom in append_bond. No axioms.",
   ref="7/C05"),
  "C11": dict(
@@ -48,6 +48,20 @@ CHECKS = {
   text="Props/C15.v: for EVERY bond list and start, yield_bfsd terminates within the model's fuel and yields exactly the component minus the start, once each, with shortest-path labels, non-decreasing (C15_bfs_total, C15_bfs_sound_complete); with a direction exactly the atoms reachable in the graph without the start (C15_bfs_directed); is_bond_in_ring = true <-> endpoints still connected after deleting the bond (C15_ring_iff_not_bridge); accessors = folds over the bond list (C15_adjacency_agrees, C15_handshake); the reference enumerator returns exactly the induced embeddings, none twice (C15_match_reference_partial, C15_match_plain). _node_match/_edge_match/Bond.order are re-tabulated from /repo each run and proved equal to the model predicates on the whole grid. The exact yielded sequences for all labelled graphs on <=5 atoms (thorough <=6), every start/direction/bond, random graphs <=40 atoms, and molli's match output vs the enumerator are compared inside Coq.",
   note="PARTIAL for matching: networkx VF2 is not modelled; molli's match output is tied to the proved enumerator only differentially. Trusted: Coq kernel+vm_compute, harness/c15.py (driver, canonicalisation, T-emitter), CPython, networkx. Grid completeness of the predicate tables is an assumption (predicates only compare values with each other/constants). Known finding C15:match:raises-NotImplementedError. No axioms.",
   ref="7/C15"),
+ "C07": dict(
+    technique="Coq proof: exhaustive kernel computation over the regenerated mol2 type tables (tie T) + inductive round-trip proof of a token-level writer/reader model, tied by differential correspondence compiled as kernel-checked Examples (tie H)",
+    text="Props/C07.v. Layer (a): Gen/Mol2Types.v tabulates get_mol2_type on all 119x21x18 = 44 982 (element, atom type, geometry) triples, "
+         "set_mol2_type on every emitted token, and the bond maps, on every run; C07_tokens_accepted, C07_element_preserved, "
+         "C07_type_fixed_point, C07_bond_expressible, C07_bond_fixed_point, C07_sybyl_vocabulary are decided by the kernel on the whole domain. "
+         "Layer (b): C07_roundtrip / C07_roundtrip_all (read (write m) = Some (norm m) for EVERY well-formed molecule / molecule list, Molecule and "
+         "Structure writers), C07_preserved (name, order, elements, non-empty labels, coordinates, charges, bonds, expressible bond types), "
+         "C07_text_fixed_point (second cycle writes the same text), C07_ensemble / C07_ensemble_count_order. The model is compared with molli on "
+         "600 (thorough 6000) generated objects per run: written lines and read-back fields must coincide inside Coq; an independent oracle judges the property.",
+    note="Trusted: Coq kernel + vm_compute; table emitter and correspondence harness (harness/c07.py); CPython's correctly rounded float formatting/float() "
+         "(floats enter the model as their exact decimal rounding). Outside the model: UNITY_*_ATTR sections, non-'%f' number spellings, numpy assignment. "
+         "Known findings excluded by explicit hypotheses with refuted-lemmas: '-0.000' charge loses its sign on the second write; a 0-conformer ensemble writes nothing. "
+         "Two defects repaired (a070a0c, acf63e7). No axioms.",
+    ref="7/C07"),
 }
 
 PENDING = {
